@@ -248,7 +248,7 @@ def select_cases():
 
     out = []
     S160, S256 = z3.BitVecSort(160), z3.BitVecSort(256)
-    for shape in ("store(base,k0,v0), same key term", "store(base,k0,v0), other key term", "no definition", "initial empty array", "initial empty array, symbolic mode"):
+    for shape in ("store(base,k0,v0), same key term", "store(base,k0,v0), other key term", "store(base,k0,v0), other key term, symbolic mode", "store(base,k0,v0), same key term, symbolic mode", "no definition", "initial empty array", "initial empty array, symbolic mode"):
 
         def harness(interp, shape=shape):
             ctx = interp.ctx
@@ -274,7 +274,7 @@ def select_cases():
 
             def rec_select(i, a, kw):
                 # inductive hypothesis for the recursive call on the base array
-                rec.append(a[1:])
+                rec.append((a[1:], dict(kw)))
                 return z3.Select(a[1], a[2])
 
             fn = hs.Exec.__dict__["select"]
@@ -302,11 +302,36 @@ def select_cases():
             if isinstance(r, int):
                 r = z3.BitVecVal(r, 256)
             ctx.oblige("result denotes Select(array, key) under the path condition", z3.Implies(PC, r == z3.Select(A, key)), info={"result": str(r)[:80], "asked": str(oracle.asked)[:120]})
-            if shape.endswith("symbolic mode"):
+            if shape.startswith("initial") and shape.endswith("symbolic mode"):
                 ctx.oblige("symbolic-storage mode: the initial array is not assumed empty", z3.BoolVal(not z3.is_bv_value(r)))
+            for a, kw in rec:
+                flag = a[3] if len(a) > 3 else kw.get("symbolic", False)
+                ctx.oblige("the recursion on the base array keeps the key, the definitions and the symbolic-storage flag (the induction hypothesis is used for the same mode)", z3.BoolVal(z3.eq(a[1], key) and a[2] is arrays and bool(flag) == symbolic and z3.eq(a[0], B)), info={"flag": str(flag), "mode": str(symbolic)})
 
-        out.append(Case(f"{PROP}/sevm.Exec.select", shape, harness, sources=("halmos.sevm:Exec.select",)))
+        out.append(Case(f"{PROP}/sevm.Exec.select", shape, harness, replay=replay_select, sources=("halmos.sevm:Exec.select",)))
     return out
+
+
+def replay_select(r):
+    """real sstore/sload on an account whose storage is symbolic: a never-written key must not read as a constant"""
+    import halmos.bitvec as hb
+    import halmos.sevm as hs
+    from contracts.common import THIS, mk_ex, mk_sevm
+
+    for layout in ("solidity", "generic"):
+        sevm = mk_sevm(storage_layout=layout)
+        ex = mk_ex(sevm)
+        ex.storage[THIS].symbolic = True
+
+        def m(key):
+            return hb.HalmosBitVec(ex.sha3_data(z3.Concat(z3.BitVecVal(key, 256), z3.BitVecVal(3, 256))))
+
+        sevm.sstore(ex, THIS, m(1), hb.HalmosBitVec(0xAA))
+        got = sevm.sload(ex, THIS, m(2))
+        got = got.as_z3() if hasattr(got, "as_z3") else got
+        if z3.is_bv_value(z3.simplify(got)):
+            return {"reproduced": True, "detail": f"{layout} layout, symbolic storage: after m[1] = 0xaa the never-written m[2] reads the constant {z3.simplify(got)} instead of an unconstrained initial value", "inputs": "symbolic storage; sstore(m[1], 0xaa); sload(m[2])"}
+    return {"reproduced": False, "detail": "with symbolic storage a never-written key reads an unconstrained value after a store to another key (both layouts)"}
 
 
 # ---------------------------------------------------------------------------------------
